@@ -46,9 +46,9 @@ Print Assumptions c07_random_mac.
 
 (* ---- statements about the C code AS TRANSLATED on this run (Gen/Sites.v: every guard, declaration, conversion and call argument with the
    types clang computed; tools/sites.py), for every memory m and every environment: tie #1 extended from constants to arithmetic and
-   control flow.  Vocabulary in Spec/CodeSpec.v, evaluator and interpreter in Base/CExpr.v, proofs in Proofs/SitesProofs.v. ---- *)
+   control flow.  Vocabulary in Spec/CodeSpec.v, evaluator and interpreter in Base/CExpr.v, proofs in Proofs/SitesDump.v. ---- *)
 From Coq Require Import String.
-From LW Require Import Base.CExpr Gen.Sites Spec.CodeSpec Proofs.SitesProofs.
+From LW Require Import Base.CExpr Gen.Sites Spec.CodeSpec Proofs.SitesDump.
 Local Open Scope string_scope.
 Local Open Scope Z_scope.
 
